@@ -418,6 +418,14 @@ package core
 //@   loop 1 decreases rangelen - rangeindex
 //@   loop 1 frame nothing
 
+// ... and every request has a body (C09 "every request and response has a body")
+//@ func (*JApiCore).validateRequestBody$1
+//@   tag C09 C01
+//@   requires !isnil(k) && (typeis(v, *catalog.HTTPInteraction) ==> ifaceptr(v) != 0)
+//@   requires typeis(v, *catalog.HTTPInteraction) && asptr(*catalog.HTTPInteraction, ifaceptr(v)).Request != nil ==> DirWFv(asptr(*catalog.HTTPInteraction, ifaceptr(v)).Request.Directive)
+//@   modifies nothing
+//@   ensures [C09] isnil(ret) && typeis(v, *catalog.HTTPInteraction) && asptr(*catalog.HTTPInteraction, ifaceptr(v)).Request != nil ==> asptr(*catalog.HTTPInteraction, ifaceptr(v)).Request.HTTPRequestBody != nil
+
 //@ pred DirWFv(d directive.Directive) = d.keywordCoords.file != nil && d.keywordCoords.begin <= len(d.keywordCoords.file.content) && !isnil(d.includeTracer) && 0 <= d.type_ && d.type_ <= 29
 
 // ---------------------------------------------------------------- descriptions (C15: a blank description is rejected)
